@@ -329,7 +329,7 @@ struct session
         C probe = c;
         K::prepare(probe);
         // the checkpoint after the (possibly rejected) rollback, as text and as the state the next iteration would use
-        ev("Rollback").i("k", (long long) k).i("threw", threw ? 1 : 0).i("text", ids().id("t:" + text_of(probe))).i("state", K::state_id(probe))
+        ev("Rollback").i("k", (long long) (k > 1000000 ? 1000000 : k)).i("threw", threw ? 1 : 0).i("text", ids().id("t:" + text_of(probe))).i("state", K::state_id(probe))
             .i("n", (long long) c.results().size()).emit();
         if (!resume_calls.empty() && !stopped)
         {
@@ -400,6 +400,9 @@ static void run_cfg(rng& g, char const* ename, E const& engine, int variant, int
             if (rl && k < n && g.below(2)) rest[0] += 7; // a different continuation after the rollback
             s.rollback_history(calls, k, rl != 0, rest);
         }
+    // far beyond the number of results (k + 1 wraps around): rejected like n + 1, nothing changes
+    std::size_t const huge[4] = {n + 2, ~std::size_t(0), ~std::size_t(0) - 1, ~std::size_t(0) / 2 + 1};
+    for (int i = 0; i != 4; ++i) s.rollback_history(calls, huge[i], i % 2 != 0, std::vector<std::size_t>());
 }
 
 int main(int argc, char** argv)
